@@ -41,6 +41,9 @@ def topo_json(mesh):
                     line.append(nets.edfa(f'ila (N{x} -> N{y}){tag}-{k}', type_variety='std_medium_gain',
                                           operational={'gain_target': None, 'tilt_target': 0}))
                 line.append(nets.fiber(f'fiber (N{x} -> N{y}){tag}-{k}', float(km)))
+            if style == 'fusedend':       # two Fused (patch panels) in front of the far ROADM instead of a pre-amplifier:
+                line.append(nets.fused(f'fused (N{x} -> N{y}){tag}-end1'))       # one element more than a plain line
+                line.append(nets.fused(f'fused (N{x} -> N{y}){tag}-end2'))
             nets.chain(els, cxs, R(x), R(y), line)
     return {'elements': els, 'connections': cxs}
 
